@@ -90,6 +90,11 @@ def run(ck: Checker):
     arith_folds.fold_adders(ck, 'C08.FOLD', bench)
     arith_folds.fold_sub(ck, 'C08.FOLD', bench)
     ck.floor('C08.FOLD', 4)
+    ck.rule('C08.NUM', 'every multiplier of the dispatch table (default, alter, Dadda, Wallace, 2^k-1, both Karatsuba variants) and both squarers instantiated as they stand -- work lists, reduction loops, recursion -- on a host circuit with gates of its own, both endiannesses: the returned bits decode to a * b / a^2, on every operand value for small widths and on a fixed sample of operand values at the widths where the algorithms change behaviour (Karatsuba 18/20/21, squarers 12/17/19; more in the thorough tier)')
+    from .. import num_folds
+    nb = num_folds.fold_multipliers(ck, 'C08.NUM')
+    num_folds.fold_squarers(ck, 'C08.NUM', nb)
+    ck.floor('C08.NUM', 9)
     ck.assume('NOT DECIDED: that the bits returned by the while-loop / recursive multipliers (default, Karatsuba, Dadda, Wallace, 2^k-1) and the squarers decode to a*b / a^2, and the Karatsuba thresholds')
     ck.assume('summation / subtraction gadgets reused by the multipliers are decided under C07.GADGET and C09.GADGET')
 
